@@ -43,6 +43,17 @@ def run_case(cs, ctx):
             v.pop('lt', None)
             v.pop('llq', None)
         ctx.cov('list_longer_than_1000')
+    if cs % 97 == 6 and mp == 'spa':
+        n2 = rng.choice([256, 512])
+        v.update({'n1': 3, 'n2': n2, 'n3': n2 // 256, 'pmin': n2, 'pmax': n2, 'uq': n2 + 10, 'luq': 20, 'numinst': 1})
+        for k in ('lq', 'lt', 'llq'):
+            v.pop(k, None)
+        ctx.cov('student_ranking_256_projects_of_one_lecturer')
+    if ctx.shard == 0 and not getattr(ctx, '_did_65k', False) and mp == 'hr':
+        ctx._did_65k = True
+        v.update({'n1': 65600, 'n2': 3, 'pmin': 1, 'pmax': 2, 'uq': 65600, 'numinst': 1, 't1': 0.0, 't2': 0.0})
+        v.pop('lq', None)
+        ctx.cov('more_than_65535_first_side_agents')
     outdir = ge.fresh_outdir(ctx.workdir, 'c12')
     argv = ge.to_argv(v, outdir, rng)
     case = {'cs': cs, 'vector': v, 'argv': [a if a != outdir else '<outdir>' for a in argv]}
